@@ -137,7 +137,7 @@ func genDebian(th bool) []string {
 		revs = append(revs, "-10", "-1.1")
 	}
 	out := cross(epochs, nums, suffix, revs)
-	out = append(out, "01", "1.01", "1.0-01", "1.0-1-1", "1:1.0-1-1", BIG, "1."+BIG, BIG+":1", "1-"+BIG, BIG2, "1.0.a", "1.0+", "1.0~~a")
+	out = append(out, "01", "1.01", "1.0-01", "1.0-1-1", "1:1.0-1-1", BIG, "1."+BIG, "1-"+BIG, BIG2, "1.0.a", "1.0+", "1.0~~a", "1.0-2", "1.0-0-1", "1.0-1-2")
 	return out
 }
 
@@ -219,7 +219,7 @@ func genRedHat(th bool) []string {
 		rels = append(rels, "-2.el8_1", "-1.el8~1")
 	}
 	out := cross(epochs, nums, suffix, rels)
-	out = append(out, "1", "01.0", "1.01", "1.0-01", BIG, "1."+BIG, BIG+":1.0", "1.0-"+BIG, "1."+BIG2, "1.0_1", "1.0+1")
+	out = append(out, "1", "01.0", "1.01", "1.0-01", BIG, "1."+BIG, "1.0-"+BIG, "1."+BIG2, "1.0_1", "1.0+1")
 	return out
 }
 
